@@ -249,14 +249,37 @@ def _known_keys():
 # --------------------------------------------------------------------------
 # parallel map over units
 
+class UnitTimeout(BaseException):
+    pass
+
+
+def _alarm(signum, frame):
+    raise UnitTimeout()
+
+
 def _run_unit(args):
+    """Run one unit.  In the thorough tier a unit has a wall budget
+    (VERIF_UNIT_BUDGET seconds): a unit that exceeds it is reported as undecided
+    (listed, not counted as success, not an error)."""
+    import signal
     fn, item = args
     t = time.time()
+    budget = int(os.environ.get("VERIF_UNIT_BUDGET", "0") or 0)
+    if budget:
+        signal.signal(signal.SIGALRM, _alarm)
+        signal.alarm(budget)
     try:
         r = fn(item)
+    except UnitTimeout:
+        r = new_unit(str(item)[:200])
+        r["notes"].append("extended unit undecided: exceeded the %d s wall budget of the thorough tier" % budget)
+        r["undecided_extended"] = 1
     except BaseException:
         r = new_unit(str(item)[:200])
         r["errors"].append("unit crashed: " + traceback.format_exc()[-3000:])
+    finally:
+        if budget:
+            signal.alarm(0)
     r["wall_s"] = time.time() - t
     return r
 
